@@ -5,10 +5,13 @@ import (
 	"fmt"
 
 	geom "github.com/twpayne/go-geom"
+	"github.com/twpayne/go-geom/encoding/geojson"
+	"github.com/twpayne/go-geom/encoding/wkt"
 
 	"verifharness/fw"
 	"verifharness/gen"
 	"verifharness/model"
+	"verifharness/ref"
 )
 
 // C01 - flat representation well formed and lossless.
@@ -233,6 +236,123 @@ func c01Shapes(c *fw.Ctx, idx int) {
 	}
 	// (e) a coordinate of the wrong length must be rejected, not stored
 	c01WrongLength(c, g)
+	// (f) SetCoords again on the same object: other sizes, then coordinates that
+	// alias the geometry's own storage (taken from Coord(i)) in another order
+	if t != nil && layout != geom.NoLayout {
+		c01Reset(c, t, kind, layout, cl)
+	}
+
+}
+
+// setCoordsOn calls SetCoords on an existing geometry object.
+func setCoordsOn(t geom.T, g *model.G) error {
+	var err error
+	switch x := t.(type) {
+	case *geom.Point:
+		_, err = x.SetCoords(geom.Coord(g.C0))
+	case *geom.LineString:
+		_, err = x.SetCoords(g.Coords1())
+	case *geom.LinearRing:
+		_, err = x.SetCoords(g.Coords1())
+	case *geom.Polygon:
+		_, err = x.SetCoords(g.Coords2())
+	case *geom.MultiPoint:
+		_, err = x.SetCoords(g.Coords1())
+	case *geom.MultiLineString:
+		_, err = x.SetCoords(g.Coords2())
+	case *geom.MultiPolygon:
+		_, err = x.SetCoords(g.Coords3())
+	}
+	return err
+}
+
+type coordAt interface{ Coord(i int) geom.Coord }
+
+// c01Reset re-sets the coordinates of a geometry that already holds some.
+func c01Reset(c *fw.Ctx, t geom.T, kind model.Kind, layout geom.Layout, cl gen.FloatClass) {
+	r := c.R
+	// other sizes (both growing and shrinking happen over the run)
+	g2 := gen.Shape(r, kind, layout, cl, gen.ShapeOpts{NoEmptyPoint: true})
+	before := model.FromGeom(t)
+	c.SetInput(map[string]any{"first": before.String(), "then_SetCoords": g2.String()})
+	var err error
+	if c.Guard("panic", func() { err = setCoordsOn(t, g2) }) {
+		return
+	}
+	c.Eval(1)
+	c.Count("setcoords_on_used_geometry")
+	if err != nil {
+		c.Fail("setcoords-error", "second SetCoords rejected well-formed coordinates: %v", err)
+		return
+	}
+	if !expectGeom(c, "second SetCoords", t, g2, model.Opts{}) {
+		return
+	}
+	c.Guard("panic", func() { c01ReadBack(c, "second SetCoords", t, g2) })
+	// coordinates aliasing the geometry's own storage, in reverse order
+	ca, ok := t.(coordAt)
+	if !ok || kind == model.Point {
+		return
+	}
+	cur := model.FromGeom(t)
+	all := cur.AllCoords()
+	if len(all) < 2 {
+		return
+	}
+	if kind == model.MultiPoint {
+		for _, m := range cur.C1 {
+			if len(m) == 0 {
+				return // Coord(i) of an empty member is nil: no storage to alias
+			}
+		}
+	}
+	n := len(all)
+	alias := func(i int) []float64 { return []float64(ca.Coord(i)) }
+	want := &model.G{Kind: kind, Layout: layout}
+	arg := &model.G{Kind: kind, Layout: layout}
+	k := n - 1
+	rev1 := func(l [][]float64) ([][]float64, [][]float64) {
+		w := make([][]float64, len(l))
+		a := make([][]float64, len(l))
+		for i := range l {
+			w[i] = append([]float64{}, all[k]...)
+			a[i] = alias(k)
+			k--
+		}
+		return w, a
+	}
+	switch kind {
+	case model.LineString, model.LinearRing, model.MultiPoint:
+		want.C1, arg.C1 = rev1(cur.C1)
+	case model.Polygon, model.MultiLineString:
+		for _, l := range cur.C2 {
+			w, a := rev1(l)
+			want.C2 = append(want.C2, w)
+			arg.C2 = append(arg.C2, a)
+		}
+	case model.MultiPolygon:
+		for _, pg := range cur.C3 {
+			var wp, ap [][][]float64
+			for _, l := range pg {
+				w, a := rev1(l)
+				wp = append(wp, w)
+				ap = append(ap, a)
+			}
+			want.C3 = append(want.C3, wp)
+			arg.C3 = append(arg.C3, ap)
+		}
+	}
+	c.SetInput(map[string]any{"geometry": cur.String(), "then_SetCoords": "its own Coord(i) slices in reverse order"})
+	if c.Guard("panic", func() { err = setCoordsOn(t, arg) }) {
+		return
+	}
+	c.Eval(1)
+	c.Count("setcoords_with_aliasing_input")
+	if err != nil {
+		c.Fail("setcoords-error", "SetCoords with aliasing input failed: %v", err)
+		return
+	}
+	expectGeom(c, "SetCoords(own Coord(i) slices reversed)", t, want, model.Opts{})
 }
 
 // c01WrongLength injects one coordinate of wrong length at a random position.
@@ -436,18 +556,87 @@ func c01NoLayout(c *fw.Ctx, idx int) {
 	})
 }
 
+// c01Decoders: every decoder hands out well-formed geometries equal to what was encoded.
+func c01Decoders(c *fw.Ctx, idx int) {
+	r := c.R
+	switch idx % 3 {
+	case 0: // WKB / EWKB bytes from the independent writer
+		g := c03Model(r)
+		m := wkbModes[2+r.Intn(4)]
+		b, _, err := ref.WriteWKB(g, m.o)
+		if err != nil {
+			return
+		}
+		c.SetInput(map[string]any{"decoder": m.name, "geometry": g.String()})
+		var t geom.T
+		if c.Guard("panic", func() { t, err = m.unmarshal(b) }) {
+			return
+		}
+		c.Eval(1)
+		c.Count("decoded_" + m.name)
+		if err != nil {
+			c.Fail("unmarshal-error", "%s rejected a standard encoding: %v", m.name, err)
+			return
+		}
+		expectGeom(c, m.name+" decoder", t, decodeExpectation(g, m), model.Opts{})
+		c.Distinct("dec/" + m.name + "/" + g.Sig())
+	case 1: // WKT text from the independent speller
+		g := c05Model(r)
+		st := &ref.WKTStyle{R: r, Whitespace: r.Bool(), BareMultiPt: r.Bool(), DetachSuffix: r.Bool()}
+		text := st.Spell(g)
+		c.SetInput(map[string]any{"decoder": "wkt", "wkt": clipStr(text, 500)})
+		var t geom.T
+		var err error
+		if c.Guard("panic", func() { t, err = wkt.Unmarshal(text) }) {
+			return
+		}
+		c.Eval(1)
+		c.Count("decoded_wkt")
+		if err != nil {
+			c.Fail("unmarshal-error", "wkt.Unmarshal rejected standard text: %v", err)
+			return
+		}
+		expectGeom(c, "wkt decoder", t, g, model.Opts{})
+		c.Distinct("dec/wkt/" + g.Sig())
+	default: // GeoJSON
+		g := c07Model(r)
+		_, dec, readable := geojsonExpect(g)
+		if !readable {
+			return
+		}
+		data, err := geojson.Marshal(g.BuildFlat())
+		if err != nil {
+			return
+		}
+		c.SetInput(map[string]any{"decoder": "geojson", "geojson": clipStr(string(data), 500)})
+		var t geom.T
+		if c.Guard("panic", func() { err = geojson.Unmarshal(data, &t) }) {
+			return
+		}
+		c.Eval(1)
+		c.Count("decoded_geojson")
+		if err != nil {
+			c.Fail("unmarshal-error", "geojson.Unmarshal rejected the library's own output: %v", err)
+			return
+		}
+		expectGeom(c, "geojson decoder", t, dec, model.Opts{})
+		c.Distinct("dec/geojson/" + g.Sig())
+	}
+}
+
 func init() {
 	fw.Register(&fw.Monitor{
 		ID:    "C01",
 		Title: "flat-coordinate representation stays well formed and lossless",
 		Rule: "generated nested coordinate arrays for the 7 geometry types x layouts {NoLayout, XY, XYZ, XYM, XYZM, Layout(5..8)} x float classes (NaN payloads, +-Inf, -0, denormals, random bits, grids); " +
 			"each built by SetCoords, New*Flat (from the model's own prefix sums), MustSetCoords and Clone, checked by the well-formedness monitor and compared bit for bit with the nested-list model through FlatCoords/Ends/Endss and through Coords/Coord(i)/Num*; " +
-			"plus one wrong-length coordinate injected at a random position. distinct_nontrivial = number of distinct shape signatures (type, layout, nested length pattern capped at 3) with at least one coordinate, plus the NoLayout accessor cases",
+			"a second SetCoords on the same object (other sizes; then the geometry's own Coord(i) slices in reverse order, i.e. input aliasing its storage); one wrong-length coordinate injected at a random position; geometries handed out by the WKB/EWKB, WKT and GeoJSON decoders for encodings produced by the independent writers. distinct_nontrivial = number of distinct shape signatures (type, layout, nested length pattern capped at 3) with at least one coordinate, plus the NoLayout accessor cases",
 		Assume: []string{"Go runtime bounds/nil checks turn memory errors into panics, which are observed", "nested-list model and WF monitor in /verif/harness/model"},
 		Classes: []fw.Class{
 			{Name: "shapes", Quick: 60000, Thorough: 3000000, Run: c01Shapes},
+			{Name: "decoders", Quick: 30000, Thorough: 1500000, Run: c01Decoders},
 			{Name: "nolayout", Quick: 21, Thorough: 21, Chunk: 21, Run: c01NoLayout, Exhaustive: "7 types x 3 ways of obtaining a NoLayout geometry"},
 		},
-		Require: []string{"wf_ok", "wrong_length_injected", "empty_component_before_nonempty", "nolayout_cases"},
+		Require: []string{"wf_ok", "wrong_length_injected", "empty_component_before_nonempty", "nolayout_cases", "setcoords_on_used_geometry", "setcoords_with_aliasing_input", "decoded_wkt", "decoded_geojson", "decoded_ewkb-ndr"},
 	})
 }
